@@ -6,4 +6,5 @@ import PyXABModel.Model.TreeBandit
 import PyXABModel.Model.Sweep
 import PyXABModel.Model.SequOOL
 import PyXABModel.Model.Meta
+import PyXABModel.Model.Zooming
 import PyXABModel.Drv.Main
